@@ -155,6 +155,28 @@ func ruleFirstMatch(p *Program, r *Result, regexSites []*ssa.Call) []*ssa.Functi
 	}
 	for _, E := range evals {
 		key := fnKey(E)
+		if p.useViews {
+			// a named decision function (permits(action) bool) stays a call in the evaluator's view: folded in, its
+			// 'return true / return false' would look like grants and denials of the evaluator's own
+			E = p.viewKeeping(p.orig(E), func(f *ssa.Function) bool {
+				sig := f.Signature
+				if sig.Results().Len() != 1 || sig.Params().Len() == 0 {
+					return false
+				}
+				if b, ok := sig.Results().At(0).Type().Underlying().(*types.Basic); !ok || b.Kind() != types.Bool {
+					return false
+				}
+				return typeIs(sig.Params().At(sig.Params().Len()-1).Type(), modPath+"/cmds/server/config", "Action")
+			})
+			regexSites = nil
+			for _, c := range allCalls(E) {
+				if call, ok := c.(*ssa.Call); ok {
+					if f := call.Common().StaticCallee(); f != nil && f.Pkg != nil && f.Pkg.Pkg.Path() == "regexp" && regexpEntry[f.Name()] && f.Signature.Recv() == nil {
+						regexSites = append(regexSites, call)
+					}
+				}
+			}
+		}
 		// (f2) nothing accumulates across rules
 		var carried []string
 		for _, b := range E.Blocks {
